@@ -140,7 +140,13 @@ theorem fragC_scalar {env : Env} {file : AFile} {G : List String} {Γ : Ctx} {K 
     cases c with
     | enum tn vn' vi => simp only [fragC, Bool.and_eq_true] at h; exact scalarEq_flat h.1
     | struct sn => simp only [fragC, Bool.and_eq_true] at h; exact scalarEq_flat h.1.1
-  | tuple items ty => simp [fragC] at h
+  | tuple items ty =>
+    simp only [fragC] at h
+    cases ty with
+    | tuple ts =>
+      simp only [Bool.and_eq_true, tupleTyOK] at h
+      exact valTy_flat h.2.1
+    | _ => exact absurd h (by simp)
   | array items ty => simp [fragC] at h
   | cget e c idx ty =>
     cases c with
@@ -163,7 +169,16 @@ theorem fragC_scalar {env : Env} {file : AFile} {G : List String} {Γ : Ctx} {K 
   | toDyn tr forTy e ty => simp [fragC] at h
   | dynCall tr m recv args ty => simp [fragC] at h
   | go e ty => simp [fragC] at h
-  | proj e idx ty => simp [fragC] at h
+  | proj e idx ty =>
+    simp only [fragC, Bool.and_eq_true] at h
+    obtain ⟨_, hcase⟩ := h
+    cases hety : e.ty with
+    | tuple ts =>
+      rw [hety] at hcase; simp only [Bool.and_eq_true] at hcase
+      cases hti : ts[idx]? with
+      | none => rw [hti] at hcase; exact absurd hcase.2 (by simp)
+      | some t => rw [hti] at hcase; exact scalarEq_flat hcase.2
+    | _ => rw [hety] at hcase; exact absurd hcase (by simp)
 
 theorem bindSimple_shape {env : Env} {file : AFile} {G : List String} {Γ : Ctx} {K : KCtx} {v : CExpr} (x : String)
     (h : fragC env file G Γ K v = true) :
